@@ -4,6 +4,7 @@ CONSTANTS
   MaxLen = 3
   MaxOps = 6
   Universe = "adv"
+  Deep = FALSE
   Snaps = TRUE
   BType = "rlp"
   BRawId = ""
